@@ -468,7 +468,7 @@ class Process:
     @wrap_exceptions
     def gids(self):
         _, _, _, real, effective, saved = self._proc_cred()
-        return _common.puids(real, effective, saved)
+        return _common.pgids(real, effective, saved)
 
     @wrap_exceptions
     def cpu_times(self):
